@@ -26,4 +26,14 @@ CHECKS = {
           "hostile edit histories (collisions on few times, removal at first/last point, emptied parts, redundant quarter changes).",
   "note": "Trusted: vmon/refmodels/timeline.py. Open documentation points (redundant quarter change, pending point) are accepted both ways.",
  },
+ "C02": {
+  "technique": "contract on the real map property getters, evaluated at every integer position against an exact Fraction integration model",
+  "text": "Hooks on Part.quarter_map / beat_map / inv_quarter_map / inv_beat_map / quarter_duration_map fire whenever any "
+          "workload obtains a map; the map is evaluated at every integer position (vector and sampled scalar calls) and compared "
+          "with an exact rational integration of divisions and time signatures incl. the pickup origin rule; inverses must undo the "
+          "forward maps. Workload: generated parts with division/signature changes on and off barlines, pickups of every length, "
+          "full first bars made of stretches with different divisions, musical-beat mode, parts starting after 0, one-point parts, "
+          "and the fixture corpus.",
+  "note": "Trusted: vmon/refmodels/timemaps.py. Origin judged only where the statement fixes it; rel. tol. 1e-9.",
+ },
 }
